@@ -69,23 +69,31 @@ Definition rnd_wf (r : rnd) : Prop :=
   | RText _ => True
   end.
 
-(* the values randomizer r may answer: inside the declared range, or — only if
-   its probability is not 1.0 — the none value *)
-Definition rnd_may (r : rnd) (raw : value) : Prop :=
+Definition prob_of (r : rnd) : Q :=
   match r with
-  | RRangeI lo hi p none =>
-      (exists z, raw = VInt z /\ lo <= z < hi) \/ (~ (p == 1)%Q /\ raw = none)
-  | RRangeF lo hi p none =>
-      (exists q, raw = VFlt q /\ (lo <= q)%Q /\ (q < hi)%Q) \/ (~ (p == 1)%Q /\ raw = none)
-  | RDate mn days stamp p =>
-      (exists k, 0 <= k < days /\ raw = if stamp then VFlt (js_stamp (mn + k)) else VDate (mn + k))
-      \/ (~ (p == 1)%Q /\ raw = VNone)
-  | RValue v p => raw = v \/ (~ (p == 1)%Q /\ raw = VNone)
-  | RSample vals counts p =>
-      (exists c, In (raw, c) (combine vals (counts_of vals counts)) /\ 0 < c)
-      \/ (~ (p == 1)%Q /\ raw = VNone)
-  | RText p => (exists t, raw = VStr t) \/ (~ (p == 1)%Q /\ raw = VNone)
+  | RRangeI _ _ p _ | RRangeF _ _ p _ | RDate _ _ _ p | RValue _ p | RSample _ _ p | RText p => p
   end.
+(* what generate() answers when the value is skipped *)
+Definition none_of (r : rnd) : value :=
+  match r with RRangeI _ _ _ n | RRangeF _ _ _ n => n | _ => VNone end.
+
+(* the declared range of a randomizer *)
+Definition in_range (r : rnd) (raw : value) : Prop :=
+  match r with
+  | RRangeI lo hi _ _ => exists z, raw = VInt z /\ lo <= z < hi
+  | RRangeF lo hi _ _ => exists q, raw = VFlt q /\ (lo <= q)%Q /\ (q < hi)%Q
+  | RDate mn days stamp _ =>
+      exists k, 0 <= k < days /\ raw = if stamp then VFlt (js_stamp (mn + k)) else VDate (mn + k)
+  | RValue v _ => raw = v
+  | RSample vals counts _ =>
+      exists c, In (raw, c) (combine vals (counts_of vals counts)) /\ 0 < c
+  | RText _ => exists t, raw = VStr t
+  end.
+
+(* the values randomizer r may answer: inside the declared range – unless its
+   probability is 0.0 – or the none value – unless its probability is 1.0 *)
+Definition rnd_may (r : rnd) (raw : value) : Prop :=
+  (~ (prob_of r == 0)%Q /\ in_range r raw) \/ (~ (prob_of r == 1)%Q /\ raw = none_of r).
 
 Lemma skip_true p s : fst (skip_value p s) = true -> ~ (p == 1)%Q.
 Proof.
@@ -94,44 +102,43 @@ Proof.
   - intros _. apply Qeq_bool_neq. exact E.
 Qed.
 
-Lemma gen_may r s : rnd_wf r -> rnd_may r (fst (gen r s)).
+Lemma skip_false p s : fst (skip_value p s) = false -> ~ (p == 0)%Q.
 Proof.
-  destruct r as [lo hi p none | lo hi p none | mn days stamp p | v p | vals counts p | p];
-    cbn [rnd_wf rnd_may gen]; intros Hwf;
-    pose proof (skip_true p s) as Hsk;
-    destruct (skip_value p s) as [sk s1]; cbn [fst] in Hsk;
-    destruct sk.
-  - right. split; [apply Hsk; reflexivity | reflexivity].
-  - destruct (next s1) as [d s2]. cbn [fst]. left. exists (randrange lo hi d).
-    split; [reflexivity | apply randrange_range; exact Hwf].
-  - right. split; [apply Hsk; reflexivity | reflexivity].
-  - destruct (next s1) as [d s2]. cbn [fst]. left. exists (uniform lo hi d).
-    split; [reflexivity | apply uniform_range; exact Hwf].
-  - right. split; [apply Hsk; reflexivity | reflexivity].
-  - destruct (next s1) as [d s2]. cbn [fst]. left. exists (randrange 0 days d).
-    split; [pose proof (randrange_range 0 days d Hwf); lia | reflexivity].
-  - right. split; [apply Hsk; reflexivity | reflexivity].
-  - left. reflexivity.
-  - right. split; [apply Hsk; reflexivity | reflexivity].
-  - destruct (next s1) as [d s2]. cbn [fst]. left.
-    destruct Hwf as [Hlen [Hnn Htot]]. unfold sample.
-    apply pick_in; [exact Hlen | exact Hnn | apply Z.mod_pos_bound; exact Htot].
-  - right. split; [apply Hsk; reflexivity | reflexivity].
-  - destruct (next s1) as [d s2]. cbn [fst]. left. exists (dt d). reflexivity.
+  unfold skip_value. destruct (Qeq_bool p 1) eqn:E.
+  - intros _ H0. apply Qeq_bool_iff in E. rewrite H0 in E. discriminate E.
+  - destruct (next s) as [d s1]. cbn [fst]. intros Hle H0.
+    destruct (rand01_range d) as [Hr _].
+    assert (Hle' : (p <= rand01 d)%Q) by (rewrite H0; exact Hr).
+    apply Qle_bool_iff in Hle'. congruence.
 Qed.
 
-(* stream-aware: a randomizer whose probability is not 1.0 consumes one draw u =
-   random(); if u > probability the none value is answered (and nothing else
-   is consumed) *)
-Definition prob_of (r : rnd) : Q :=
-  match r with
-  | RRangeI _ _ p _ | RRangeF _ _ p _ | RDate _ _ _ p | RValue _ p | RSample _ _ p | RText p => p
-  end.
-Definition none_of (r : rnd) : value :=
-  match r with RRangeI _ _ _ n | RRangeF _ _ _ n => n | _ => VNone end.
+(* the drawn value, once the skip test has passed *)
+Lemma gen_may r s : rnd_wf r -> rnd_may r (fst (gen r s)).
+Proof.
+  intros Hwf. unfold rnd_may.
+  destruct r as [lo hi p none | lo hi p none | mn days stamp p | v p | vals counts p | p];
+    cbn [rnd_wf prob_of none_of in_range gen] in *;
+    pose proof (skip_true p s) as Hsk; pose proof (skip_false p s) as Hns;
+    destruct (skip_value p s) as [sk s1]; cbn [fst] in Hsk, Hns;
+    (destruct sk; [right; split; [apply Hsk; reflexivity | reflexivity] | left; split; [apply Hns; reflexivity|]]).
+  - destruct (next s1) as [d s2]. cbn [fst]. exists (randrange lo hi d).
+    split; [reflexivity | apply randrange_range; exact Hwf].
+  - destruct (next s1) as [d s2]. cbn [fst]. exists (uniform lo hi d).
+    split; [reflexivity | apply uniform_range; exact Hwf].
+  - destruct (next s1) as [d s2]. cbn [fst]. exists (randrange 0 days d).
+    split; [pose proof (randrange_range 0 days d Hwf); lia | reflexivity].
+  - reflexivity.
+  - destruct (next s1) as [d s2]. cbn [fst].
+    destruct Hwf as [Hlen [Hnn Htot]]. unfold sample.
+    apply pick_in; [exact Hlen | exact Hnn | apply Z.mod_pos_bound; exact Htot].
+  - destruct (next s1) as [d s2]. cbn [fst]. exists (dt d). reflexivity.
+Qed.
 
+(* stream-aware: a randomizer whose probability is not 1.0 consumes one draw
+   u = random(); if u >= probability the none value is answered and nothing else
+   is consumed; probability 1.0 consumes no draw for the test *)
 Lemma gen_skipped r s :
-  ~ (prob_of r == 1)%Q -> ~ (rand01 (fst (next s)) <= prob_of r)%Q ->
+  ~ (prob_of r == 1)%Q -> (prob_of r <= rand01 (fst (next s)))%Q ->
   gen r s = (none_of r, snd (next s)).
 Proof.
   intros Hp Hu.
@@ -139,20 +146,30 @@ Proof.
   { unfold skip_value. destruct (Qeq_bool (prob_of r) 1) eqn:E1.
     - exfalso. apply Hp. apply Qeq_bool_eq. exact E1.
     - destruct (next s) as [d s1]. cbn [fst snd] in *.
-      destruct (Qle_bool (rand01 d) (prob_of r)) eqn:E2.
-      + exfalso. apply Hu. apply Qle_bool_iff. exact E2.
-      + reflexivity. }
+      apply Qle_bool_iff in Hu. rewrite Hu. reflexivity. }
   destruct r; cbn [prob_of none_of gen] in *; rewrite E; reflexivity.
 Qed.
 
-Lemma gen_not_skipped_consumes r s :
-  ~ (prob_of r == 1)%Q -> (rand01 (fst (next s)) <= prob_of r)%Q ->
-  fst (skip_value (prob_of r) s) = false.
+(* probability 0.0: always the none value, for every stream (D60) *)
+Lemma gen_prob_zero r s : (prob_of r == 0)%Q -> gen r s = (none_of r, snd (next s)).
 Proof.
-  intros Hp Hu. unfold skip_value. destruct (Qeq_bool (prob_of r) 1); [reflexivity|].
-  destruct (next s) as [d s1]. cbn [fst] in *.
-  apply Qle_bool_iff in Hu. rewrite Hu. reflexivity.
+  intros H0. apply gen_skipped.
+  - intros H1. rewrite H0 in H1. discriminate H1.
+  - rewrite H0. apply (rand01_range (fst (next s))).
 Qed.
+
+Lemma skip_value_used p s :
+  (p == 1)%Q \/ (rand01 (fst (next s)) < p)%Q -> fst (skip_value p s) = false.
+Proof.
+  intros H. unfold skip_value. destruct (Qeq_bool p 1) eqn:E; [reflexivity|].
+  destruct H as [H|H]; [apply Qeq_bool_iff in H; congruence|].
+  destruct (next s) as [d s1]. cbn [fst] in *.
+  destruct (Qle_bool p (rand01 d)) eqn:E2; [|reflexivity].
+  apply Qle_bool_iff in E2. exfalso. apply (Qlt_not_le _ _ H). exact E2.
+Qed.
+
+Lemma skip_value_p1 p s : (p == 1)%Q -> skip_value p s = (false, s).
+Proof. intros H. unfold skip_value. apply Qeq_bool_iff in H. rewrite H. reflexivity. Qed.
 
 (* ------------------------------------------------------------------------ *)
 (* str(int) and the dotted index path                                        *)
